@@ -112,7 +112,7 @@ def lin_module(name, mode, dims, qsets, exps):
     return mod, cfg
 
 
-LIN_INVS = ["TypeOK", "InverseOK", "ProperOrthogonal", "EmbeddingOK", "MainAxisScaleOK", "TimeAxisOK"]
+LIN_INVS = ["TypeOK", "InverseOK", "ProperOrthogonal", "EmbeddingOK", "MainAxisScaleOK", "TimeAxisOK", "DriftCoordsOK"]
 
 
 def _cfg_inv(cfg, invs):
@@ -334,7 +334,15 @@ def check_model(col, st, lexp, temporal=False):
                   % (fname, _cfgstr(st), np.asarray(got).tolist(), np.asarray(exp).tolist()), dict(rp, function=fname, radius2=a["rad2"]))
 
 
-COND_VALS = [1.0, -2.0, 3.0, 0.5, 4.0]
+COND_VALS = [1.0, -2.0, 3.0, 0.5, 4.0, -1.5, 2.5]
+
+
+def _drift_first(*x):
+    return x[0]
+
+
+def _drift_second_sq(*x):
+    return x[1] * x[1]
 
 
 _REF = {}
@@ -376,6 +384,23 @@ def _pipeline_compare(col, keybase, rp, what, m_an, m_iso, pos, ipos, seed, d, i
         f2 = _ref_srf(refkey, m_iso, seed, "VectorField")(ipos)
         col.check(close(f1, f2, 1e-11 * max(1.0, sd)), keybase + ":VectorField", "%s: vector field differs from the isotropic model "
                   "at the transformed positions by %s" % (what, maxdiff(f1, f2)), dict(rp, pipeline="VectorField"))
+    # --- kriging with drift: user drift functions are functions of the ORIGINAL coordinates (spec: DriftCoordsOK);
+    # the isotropic counterpart gets the same drift values as an external drift
+    nd = d + 2
+    drifts = [_drift_first] + ([_drift_second_sq] if d > 1 else [])
+    dcp, dicp, dcv = pos[:, :nd], ipos[:, :nd], COND_VALS[:nd]
+    ext_c = np.array([f(*dcp) for f in drifts])
+    ext_t = np.array([f(*pos) for f in drifts])
+    u1, uv1 = gs.krige.Universal(m_an, dcp, dcv, drifts)(pos)
+    e1, ev1 = gs.krige.ExtDrift(m_an, dcp, dcv, ext_c)(pos, ext_drift=ext_t)
+    e2, ev2 = gs.krige.ExtDrift(m_iso, dicp, dcv, ext_c)(ipos, ext_drift=ext_t)
+    col.check(close(u1, e2, KTOL) and close(uv1, ev2, KTOL), keybase + ":KrigeUniversal",
+              "%s: universal kriging with drift functions of the original coordinates differs from the isotropic model at the "
+              "transformed positions with the same drift values (field %s, variance %s)" % (what, maxdiff(u1, e2), maxdiff(uv1, ev2)),
+              dict(rp, pipeline="Krige.Universal", got=u1, expected=e2))
+    col.check(close(e1, e2, KTOL) and close(ev1, ev2, KTOL), keybase + ":KrigeExtDrift",
+              "%s: external drift kriging differs from the isotropic model at the transformed positions (field %s, variance %s)"
+              % (what, maxdiff(e1, e2), maxdiff(ev1, ev2)), dict(rp, pipeline="Krige.ExtDrift", got=e1, expected=e2))
     # --- kriging: the first d+1 points carry data, all points are targets
     nc = d + 1
     cp, icp, cv = pos[:, :nc], ipos[:, :nc], COND_VALS[:nc]
@@ -446,6 +471,8 @@ def check_general(col, idx, seed, temporal=False):
     name, kw, _ = ok[idx % len(ok)]
     ang = list(rng.uniform(-2 * math.pi, 2 * math.pi, noa(d)))
     anis = list(np.exp(rng.uniform(math.log(0.2), math.log(5.0), d - 1)))
+    if idx % 5 == 0:
+        anis = [1.0] * (d - 1)      # rotation only
     L = float(np.exp(rng.uniform(math.log(0.5), math.log(4.0))))
     common = dict(len_scale=L, var=float(rng.uniform(0.5, 3.0)))
     if temporal:
@@ -492,6 +519,224 @@ def check_general(col, idx, seed, temporal=False):
         grid = np.array(np.meshgrid(*axes, indexing="ij")).reshape(d, -1)  # enumeration of the grid points
         structured = (axes if d > 1 else axes[0], m_an.isometrize(grid))
     _pipeline_compare(col, keybase, rp, what, m_an, m_iso, pos, ipos, 77 + idx, d, idx=idx, structured=structured)
+
+
+# ---------------------------------------------------------------------------
+# histories of in-place parameter changes (GeometryHist.tla)
+
+
+def gen_scripts(rng, n, temporal, nops):
+    """Seeded scripts of public assignments; TLC computes their effect."""
+    scripts = []
+    for k in range(n):
+        d = rng.choice([2, 3, 3, 4] if k % 4 else [2, 3])
+        init = dict(d=d, qs=[rng.randrange(4) for _ in range(noa(d))], es=[rng.choice([-1, 0, 1]) for _ in range(d - 1)],
+                    l=rng.choice(LENEXP))
+        ops = []
+        kinds = ["SetLenList", "SetAngles", "SetAnis", "SetDim", "SetLenScalar", "SetLenList", "SetAngles"]
+        for j in range(nops):
+            kind = kinds[(k + j) % len(kinds)] if j < 2 else rng.choice(kinds)
+            if kind == "SetLenList":
+                ln = rng.choice([d, d, 2]) if d > 2 else 2
+                s = [rng.choice(LENEXP) for _ in range(ln)]
+                if len(set(s)) == 1:
+                    s[-1] = s[0] + (1 if s[0] < 1 else -1)
+                ops.append(dict(name=kind, s=s, v=0))
+            elif kind == "SetAngles":
+                s = [rng.randrange(4) for _ in range(noa(d))]
+                if temporal and d > 1 and not any(s[noa(d - 1):]):
+                    s[-1] = rng.choice([1, 2, 3])        # a space-time angle is requested
+                ops.append(dict(name=kind, s=s, v=0))
+            elif kind == "SetAnis":
+                ops.append(dict(name=kind, s=[rng.choice([-1, 0, 1]) for _ in range(d - 1)], v=0))
+            elif kind == "SetDim":
+                d = rng.choice([x for x in (2, 3, 4) if x != d])
+                ops.append(dict(name=kind, s=[], v=d))
+            else:
+                ops.append(dict(name=kind, s=[], v=rng.choice(LENEXP)))
+        scripts.append(dict(init=init, ops=ops))
+    return scripts
+
+
+def hist_module(name, mode, scripts):
+    mod, cfg = lin_module(name, mode, [1, 2, 3, 4], FULLQ, {})
+    mod = mod.replace("EXTENDS Geometry", "EXTENDS GeometryHist").replace("====\n", "")
+    mod += "McScripts == %s\n====\n" % _tl(scripts)
+    cfg = cfg.replace("INIT Init\nNEXT Next\n", " Scripts <- McScripts\nINIT HInit\nNEXT HNext\n")
+    return mod, _cfg_inv(cfg, LIN_INVS + ["TimeNeverRotated", "ShapeOK"])
+
+
+HIST_MODELS = MODELS[:5]
+
+
+def _apply_op(m, op, toggle):
+    n = op["name"]
+    if n == "SetAnis":
+        v = anis_of(op["s"])
+        m.anis = v[0] if len(v) == 1 and toggle else v
+    elif n == "SetAngles":
+        v = angles_of(op["s"])
+        m.angles = v[0] if len(v) == 1 and toggle else v
+    elif n == "SetLenList":
+        v = [2.0 * 2.0 ** e for e in op["s"]]
+        m.len_scale = np.array(v) if toggle else v
+    elif n == "SetLenScalar":
+        m.len_scale = 2.0 * 2.0 ** op["v"]
+    elif n == "SetDim":
+        m.dim = op["v"]
+    else:
+        raise AssertionError("unknown operation %r" % (op,))
+
+
+def replay_script(col, mode, k, script, states):
+    """One model object lives through the script; after every assignment the model, a long-lived SRF and a
+    long-lived (refreshed) Krige object must work in the coordinates of the CURRENT parameters."""
+    gs = _gs()
+    temporal = mode == "tmp"
+    name, kw = HIST_MODELS[k % len(HIST_MODELS)][:2]
+    states = sorted(states, key=lambda s: s["step"])
+    c0 = states[0]["cfg"]
+    req0 = script["init"]["qs"]
+    args = dict(len_scale=2.0 * 2.0 ** c0["l"], var=2.0, anis=anis_of(c0["es"]) or 1.0, angles=angles_of(req0) or 0.0)
+    if temporal:
+        m = _mk_model(name, kw, temporal=True, spatial_dim=c0["d"] - 1, **args)
+    else:
+        m = _mk_model(name, kw, dim=c0["d"], **args)
+    seed = 500 + k % 2
+    srf = gs.SRF(m, seed=seed, mode_no=8)
+    kr, kr_d = None, None
+    hist = []
+    for s in states:
+        op = s["op"]
+        if op["name"] != "Init":
+            hist.append(op)
+            with warnings.catch_warnings():
+                warnings.simplefilter("ignore")
+                _apply_op(m, op, (k + s["step"]) % 2)
+        st = dict(s["cfg"])
+        st.update(s["out"])
+        a = _state_arrays(st)
+        d, P = a["d"], a["P"]
+        L = 2.0 * 2.0 ** st["l"]
+        cls = "%s:%s" % ("temporal" if temporal else "spatial", op["name"])
+        rp = {"kind": "history", "mode": mode, "model": name, "init": script["init"], "ops": list(hist), "spec_state": s["cfg"]}
+        what = "%s after %s (now d=%d angles=%s quarter turns, ratio exponents %s)" % (
+            name, [(o["name"], o["s"] or o["v"]) for o in hist] or "construction", d, st["qs"], st["es"])
+        # --- public parameters
+        ok = m.dim == d and close(m.anis, anis_of(st["es"]), 1e-15) and close(m.angles, angles_of(st["qs"]), 1e-15) \
+            and abs(m.len_scale - L) <= 1e-15
+        if not col.check(ok, "history:%s:parameters" % cls, "%s: model reports dim %s anis %s angles %s len_scale %s"
+                         % (what, m.dim, np.asarray(m.anis).tolist(), np.asarray(m.angles).tolist(), m.len_scale), rp):
+            return
+        # --- the model's own change of coordinates
+        got = m.isometrize(P)
+        col.check(close(got, a["isoX"], TOL), "history:%s:isometrize" % cls,
+                  "%s: isometrize differs from the spec's Iso of the current parameters by %s" % (what, maxdiff(got, a["isoX"])),
+                  dict(rp, got=got, expected=a["isoX"]))
+        got = m.anisometrize(P)
+        col.check(close(got, a["anisoX"], TOL), "history:%s:anisometrize" % cls,
+                  "%s: anisometrize differs from the spec's Aniso of the current parameters by %s" % (what, maxdiff(got, a["anisoX"])),
+                  dict(rp, got=got, expected=a["anisoX"]))
+        col.check(close(m.main_axes(), a["axes"], TOL), "history:%s:main_axes" % cls, "%s: main_axes differ from the spec" % what, rp)
+        X = P[:, d:]
+        got, exp = m.cov_spatial(X), m.covariance(np.sqrt(a["rad2"]))
+        col.check(close(got, exp, TOL * m.var), "history:%s:cov_spatial" % cls,
+                  "%s: cov_spatial at the test positions differs from the isotropic covariance at the spec radius by %s"
+                  % (what, maxdiff(got, exp)), rp)
+        # --- pipelines on long-lived objects against the isotropic model at the spec's Iso.x
+        common = dict(len_scale=L, var=2.0)
+        m_iso = _mk_model(name, kw, temporal=True, spatial_dim=d - 1, **common) if temporal else _mk_model(name, kw, dim=d, **common)
+        refkey = ("hist", name, d, st["l"], temporal)
+        f1 = srf(P, seed=seed)
+        f2 = _ref_srf(refkey, m_iso, seed, "RandMeth")(a["isoX"])
+        col.check(close(f1, f2, TOL * 2), "history:%s:SRF" % cls, "%s: the long-lived SRF differs from the isotropic model at the spec's "
+                  "transformed positions by %s" % (what, maxdiff(f1, f2)), dict(rp, pipeline="SRF"))
+        nc = d + 1
+        cp, icp, cv = P[:, :nc], a["isoX"][:, :nc], COND_VALS[:nc]
+        if kr is None or kr_d != d:
+            kr, kr_d = gs.krige.Ordinary(m, cond_pos=cp, cond_val=cv), d
+        else:
+            kr.set_condition()      # documented refresh after a change of the model
+        k2 = gs.krige.Ordinary(m_iso, cond_pos=icp, cond_val=cv)
+        a1, v1 = kr(P)
+        a2, v2 = k2(a["isoX"])
+        col.check(close(a1, a2, KTOL) and close(v1, v2, KTOL), "history:%s:Krige" % cls,
+                  "%s: the long-lived (refreshed) kriging object differs from the isotropic model at the spec's transformed positions "
+                  "(field %s, variance %s)" % (what, maxdiff(a1, a2), maxdiff(v1, v2)), dict(rp, pipeline="Krige"))
+        a3, v3 = gs.krige.Simple(m, cond_pos=cp, cond_val=cv, mean=0.5)(P)
+        a4, v4 = gs.krige.Simple(m_iso, cond_pos=icp, cond_val=cv, mean=0.5)(a["isoX"])
+        col.check(close(a3, a4, KTOL) and close(v3, v4, KTOL), "history:%s:Krige-new" % cls,
+                  "%s: a kriging object built from the changed model differs from the isotropic model at the spec's transformed "
+                  "positions (field %s)" % (what, maxdiff(a3, a4)), dict(rp, pipeline="Krige-new"))
+        col.nontrivial.add(("hist", mode, k, s["step"]))
+
+
+def _work_hist(job):
+    mode, k, script, states = job
+    col = _Collect()
+    replay_script(col, mode, k, script, states)
+    return col
+
+
+def hist_tlc_job(sc, mode, scripts, tag):
+    """TLC job description for the scripted histories."""
+    mod, cfg = hist_module("MC_" + tag, mode, scripts)
+    sc.write("MC_%s.tla" % tag, mod)
+    return (("hist", tag), sc, "MC_" + tag, cfg, dict(workers=2, timeout=1500, heap="2g", dump=("states", sc.path(tag + ".dump"))))
+
+
+def hist_jobs(sc, mode, scripts, tag):
+    by_k = {}
+    for s in read_dump(sc.path(tag + ".dump")):
+        by_k.setdefault(s["k"], []).append(s)
+    return [(mode, k - 1, scripts[k - 1], sts) for k, sts in sorted(by_k.items())]
+
+
+def check_fit_inside(col, idx, seed, temporal):
+    """Krige(fit_variogram=True) changes the model in place: the result must be the one of a kriging object built
+    with the fitted model (conditioning and target points in the coordinates of the CURRENT parameters)."""
+    import copy
+
+    gs = _gs()
+    rng = np.random.default_rng([seed, idx, 99])
+    d = 3 if temporal else int(rng.integers(2, 4))
+    n = 70
+    pos = rng.uniform(0, 20, (d, n))
+    truth = dict(len_scale=4.0, anis=[0.3, 1.0][: d - 1] if not temporal else [1.0, 0.3], var=1.0)
+    if temporal:
+        gen = _mk_model("Exponential", {}, temporal=True, spatial_dim=2, **truth)
+        start = _mk_model("Exponential", {}, temporal=True, spatial_dim=2, len_scale=3.0, anis=[1.0, 0.8], angles=[0.3, 0.5, 0.2])
+    else:
+        gen = _mk_model("Exponential", {}, dim=d, **truth)
+        start = _mk_model("Exponential", {}, dim=d, len_scale=3.0, anis=[0.8, 1.0][: d - 1], angles=0.0)
+    val = gs.SRF(gen, seed=int(rng.integers(1 << 30)), mode_no=64)(pos)
+    before = np.array(start.anis, copy=True)
+    K = gs.krige.Ordinary if idx % 2 else gs.krige.Simple
+    with warnings.catch_warnings():
+        warnings.simplefilter("ignore")
+        k1 = K(start, cond_pos=pos, cond_val=val, fit_variogram=True)
+    fitted = k1.model
+    k2 = K(copy.deepcopy(fitted), cond_pos=pos, cond_val=val)
+    tgt = rng.uniform(0, 20, (d, 25))
+    f1, v1 = k1(tgt)
+    f2, v2 = k2(tgt)
+    changed = not np.allclose(before, fitted.anis)
+    rp = {"kind": "fit-inside", "idx": idx, "seed": seed, "temporal": temporal, "anis_before": before, "anis_after": fitted.anis}
+    col.check(close(f1, f2, KTOL) and close(v1, v2, KTOL), "krige:fit_variogram:%s:current-parameters" % ("temporal" if temporal else "spatial"),
+              "Krige(fit_variogram=True) (anis %s -> %s) differs from Krige(<fitted model>): field %s, variance %s"
+              % (before.tolist(), np.asarray(fitted.anis).tolist(), maxdiff(f1, f2), maxdiff(v1, v2)), rp)
+    if changed:
+        col.nontrivial.add(("fit", temporal, idx))
+    else:
+        col.notes.append("fit did not change the anisotropy (idx %d)" % idx)
+
+
+def _work_fit(job):
+    idxs, seed, temporal = job
+    col = _Collect()
+    for i in idxs:
+        check_fit_inside(col, i, seed, temporal)
+    return col
 
 
 def _cfg_hash(st):
@@ -605,6 +850,9 @@ def run_c12(rep, tier, seed):
         "the 4th axis are taken from the implementation (named constants Order / SignRule in Geometry.tla); the sign rule of the 3-D "
         "planes is verified by TLC against the documented right-handed yaw/pitch/roll convention (ConventionOK)",
         "pipelines are compared with mode_no=8 RandMeth generators; the isotropic reference model has the same class, variance and len_scale",
+        "universal kriging: the isotropic counterpart is external drift kriging with the drift functions' values at the original positions",
+        "histories: which assignments are made is scripted by the driver (seeded); TLC computes their effect and the expected transformation; "
+        "a long-lived Krige object is refreshed with set_condition() after a change of its model (documented)",
     ]
     with tlc.Scratch() as sc:
         jobs = []
@@ -623,10 +871,21 @@ def run_c12(rep, tier, seed):
         for ei, es in enumerate(es4):
             for q1 in range(4):
                 add("d4e%dq%d" % (ei, q1), "lin", [4], [[q1]] + FULLQ[1:], {4: [es]}, LIN_INVS)
+        scripts = gen_scripts(rng, 120 if thorough else 40, False, 8 if thorough else 5)
+        jobs.append(hist_tlc_job(sc, "lin", scripts, "hist"))
         t0 = time.time()
         results = tlc.run_many(jobs, parallel=procs)
         print("TLC: %d jobs in %.1fs" % (len(jobs), time.time() - t0))
-        _design_violations(rep, results, lambda k: "Geometry.%s[%s]" % k)
+        _design_violations(rep, results, lambda k: ("GeometryHist.%s[%s]" if k[0] == "hist" else "Geometry.%s[%s]") % k)
+        # ---- histories of in-place parameter changes on one model / SRF / Krige object
+        t0 = time.time()
+        hjobs = hist_jobs(sc, "lin", scripts, "hist")
+        for col in _run_pool(_work_hist, hjobs, procs):
+            _merge(rep, col)
+        rep.traces += len(hjobs)
+        rep.sample({"history_script": scripts[0], "spec_states": [s["cfg"] for s in sorted(hjobs[0][3], key=lambda x: x["step"])]})
+        print("replayed %d scripted histories (%d states) in %.1fs" % (len(hjobs), sum(len(j[3]) for j in hjobs), time.time() - t0))
+        rep.extra["history_scripts"] = len(hjobs)
         # ---- elementary rotations and helper functions
         col = _Collect()
         check_givens(col, read_dump(sc.path("giv.dump")))
@@ -894,8 +1153,16 @@ def check_gc_set(col, k, fam, pts, vals, s, tier):
         exp_cnt[dd] = cnt
         exp_gam[dd] = ssq / (2.0 * cnt)
     for sname, sc in _scales():
-        edges = edges_deg * (math.pi / 180.0) * sc  # fresh array: the estimator may rescale it in place
-        _bc, gam, cnt = gs.vario_estimate((lat, lon), fld, edges, latlon=True, geo_scale=sc, return_counts=True)
+        # one float64 edge array per geo_scale, shared by two calls (one variogram per field with common bins):
+        # every call must bin the great-circle distances into the classes given by the caller
+        edges = edges_deg * (math.pi / 180.0) * sc
+        edges0 = edges.copy()
+        centers = (edges0[:-1] + edges0[1:]) / 2.0
+        gs.vario_estimate((lat, lon), fld[::-1].copy(), edges, latlon=True, geo_scale=sc)
+        bc, gam, cnt = gs.vario_estimate((lat, lon), fld, edges, latlon=True, geo_scale=sc, return_counts=True)
+        col.check(close(bc, centers, TOL * sc) and np.array_equal(edges, edges0), "vario_estimate:latlon:shared-bin-edges",
+                  "second call with the same bin-edge array (geo_scale %s): returned centres %s..., edges now %s... instead of %s..."
+                  % (sname, np.asarray(bc)[:3].tolist(), edges[:3].tolist(), edges0[:3].tolist()), dict(rp, geo_scale=sc, clause="shared edges"))
         col.check(close(cnt, exp_cnt, 0.0), "vario_estimate:latlon:%s:counts" % fam,
                   "pair counts per integer-degree bin (geo_scale %s) differ from the spec's great-circle distances: got %s expected %s"
                   % (sname, {i: int(c) for i, c in enumerate(cnt) if c}, {i: int(c) for i, c in enumerate(exp_cnt) if c}),
@@ -1174,6 +1441,8 @@ def run_c13(rep, tier, seed):
             stq = [[0, rng.choice([1, 2, 3])] for _ in range(3)]
             for q1 in range(4):
                 add_lin("t4q%d" % q1, [4], [[q1]] + FULLQ[1:3] + stq, {4: es4})
+        scripts = gen_scripts(rng, 90 if thorough else 30, True, 8 if thorough else 5)
+        jobs.append(hist_tlc_job(sc, "tmp", scripts, "hist"))
         add_sph("ll", "ll", lats=(-90, 0, 90), lons=range(-360, 541, 90), times=(-1, 0, 3), radexp=(-1, 0, 1), timeexp=(-1, 0, 1))
         add_sph("gc", "gc", pointsets=[p for _f, p, _v in gcsets], values=[v for _f, _p, v in gcsets])
         add_sph("oct", "oct", pointsets=octsets, values=[[0] * len(p) for p in octsets])
@@ -1181,7 +1450,23 @@ def run_c13(rep, tier, seed):
         t0 = time.time()
         results = tlc.run_many(jobs, parallel=procs)
         print("TLC: %d jobs in %.1fs" % (len(jobs), time.time() - t0))
-        _design_violations(rep, results, lambda k: ("Geometry.%s[%s]" if k[0] == "tmp" else "GeometrySphere.%s[%s]") % k)
+        _design_violations(rep, results, lambda k: {"tmp": "Geometry.%s[%s]", "hist": "GeometryHist.%s[%s]"}.get(k[0], "GeometrySphere.%s[%s]") % k)
+        t0 = time.time()
+        hjobs = hist_jobs(sc, "tmp", scripts, "hist")
+        for col in _run_pool(_work_hist, hjobs, procs):
+            _merge(rep, col)
+        nfit = 12 if thorough else 4
+        fitnotes = []
+        for col in _run_pool(_work_fit, [([i], seed, bool(i % 2)) for i in range(nfit)], procs):
+            _merge(rep, col)
+            fitnotes += col.notes
+        for msg in fitnotes:
+            rep.note(msg)
+        rep.traces += len(hjobs) + nfit
+        rep.sample({"history_script_temporal": scripts[0], "spec_states": [s["cfg"] for s in sorted(hjobs[0][3], key=lambda x: x["step"])]})
+        print("replayed %d scripted histories of spatio-temporal models (%d states) + %d in-place variogram fits in %.1fs"
+              % (len(hjobs), sum(len(j[3]) for j in hjobs), nfit, time.time() - t0))
+        rep.extra["history_scripts"] = len(hjobs)
         t0 = time.time()
         ll = read_dump(sc.path("ll.dump"))
         gc = sorted(read_dump(sc.path("gc.dump")), key=lambda s: s["cfg"]["k"])
